@@ -560,10 +560,17 @@ func main() {
 	// ---- pass: restore onto a non-fresh FSM
 	// target depth allowed for a snapshot state at depth k: the product is triangular so that the
 	// many deepest states meet the fewer shallow targets.
+	// quick: depth-bound states -> the scenario root only, every other state -> all targets at depth <= 2;
+	// thorough: state at depth k -> all targets at depth <= min(3, bound-k).
 	tdepth := func(sc *scenario, k int) int {
-		rem := sc.depth - k + pick(quick, 0, 1) // quick: 0 for the deepest states
 		lim := pick(quick, 2, 3)
-		if rem < lim {
+		if quick {
+			if k == sc.depth {
+				return 0
+			}
+			return lim
+		}
+		if rem := sc.depth - k; rem < lim {
 			return rem
 		}
 		return lim
@@ -697,7 +704,7 @@ func main() {
 	run.Coverage["oracle_evaluations"] = checks
 	run.Coverage["snapshot_timing_bound"] = pitBound
 	run.Coverage["restore_onto_nonfresh"] = ontoBounds
-	run.Coverage["restore_onto_nonfresh_bound"] = fmt.Sprintf("snapshot of every recorded reachable state at depth k restored onto every reachable state of the same scenario at depth <= min(%d, bound-k+%d), onto every deeper proper prefix of its own history, and onto %d rich targets (nodes+primary+compactor+files+tokens, and the same plus the RBAC hierarchy)", pick(quick, 2, 3), pick(quick, 0, 1), len(rich))
+	run.Coverage["restore_onto_nonfresh_bound"] = "snapshot of every recorded reachable state (depth k) restored onto every reachable state of the same scenario at depth <= " + pick2(quick, "2 (k < bound) / the scenario root only (k = bound)", "min(3, bound-k)") + ", onto every deeper proper prefix of its own history (lagging follower) and onto " + fmt.Sprint(len(rich)) + " rich targets (nodes+primary+compactor+files+tokens, and the same plus the RBAC hierarchy); every target served a manifest listing before the restore"
 	run.Coverage["explanation"] = "every transition is a call of the real ClusterFSM.Apply on a fresh FSM after replaying the history; states de-duplicated by canonical dump of primaries+indexes (+ next log index)"
 	run.Assume("universe: 1 node, 2 file paths (+1 invalid), 2 databases, tokens a/b with shared prefix, 2-3 ids per RBAC entity type; depth bound per scenario as reported")
 	run.Assume("hashicorp/raft itself (log replication, snapshot scheduling) is not explored; the FSM is driven directly with committed logs; its Snapshot()/Persist() split is modelled by persisting a handle after further Apply calls (sequentially: Persist racing an in-flight Apply at instruction level is a data-race question, not explored here)")
@@ -712,6 +719,13 @@ func ontoName(names []string) string {
 		return "<fresh FSM>"
 	}
 	return strings.Join(names, ";")
+}
+
+func pick2(q bool, a, b string) string {
+	if q {
+		return a
+	}
+	return b
 }
 
 func pick(q bool, a, b int) int {
